@@ -533,11 +533,7 @@ void tokenize_cleanup()
             pc->SetOrigLine(prev->GetOrigLine());
             Chunk *to_be_deleted = prev;
             prev = prev->GetPrevNcNnl();
-
-            if (prev->IsNotNullChunk())
-            {
-               Chunk::Delete(to_be_deleted);
-            }
+            Chunk::Delete(to_be_deleted);
          }
       }
 
